@@ -61,6 +61,12 @@ func (p Parser) HandleRawSQLQuery(sql string) (normalizedQuery, redactedQuery st
 	if err != nil {
 		return "", "", nil, ErrQuerySyntaxError
 	}
+	if _, notParsed := stmt.(NotParsedStatement); notParsed {
+		// A parser in ModeDefault hands back the raw text of a statement it could not parse.
+		// There is nothing to normalize or redact in it, and the raw text (with all its values)
+		// must not be returned as the "redacted" query: callers print that one into logs.
+		return "", "", nil, ErrQuerySyntaxError
+	}
 	outputStmt, _ := p.Parse(sqlStripped)
 
 	normalizedQ := String(stmt)
@@ -102,7 +108,8 @@ func ParseWithDialect(dialect dialect.Dialect, sql string) (Statement, error) {
 	tokenizer := NewStringTokenizerWithDialect(dialect, sql)
 	if yyParse(tokenizer) != 0 {
 		if tokenizer.partialDDL != nil {
-			log.Printf("ignoring error parsing DDL '%s': %v", sql, tokenizer.LastError)
+			// the statement text is not logged: it may carry values (DEFAULT 'x', COMMENT 'y')
+			log.Printf("ignoring error parsing DDL: %v", tokenizer.LastError)
 			tokenizer.ParseTree = tokenizer.partialDDL
 			return tokenizer.ParseTree, nil
 		}
